@@ -8,6 +8,7 @@ from __future__ import annotations
 
 import itertools
 
+from vf.capture import get_headers_followups, leaf_predicates, signature
 from vf.common import rng_for, short_tb
 from vf.engine import show, to_expr, tree_from_json
 from vf.model import regex as R
@@ -254,32 +255,6 @@ def shape_greedy_end(shape, toks, start):
     return e
 
 
-def get_headers_followups():
-    """(language, expression, followed_by) triples as passed to scope_utils.get_headers by the real languages."""
-    from codelimit.common.scope import scope_utils
-    from codelimit.languages import Languages
-    import sys
-
-    out, cur = [], {}
-    mods = [m for n, m in sys.modules.items() if n.startswith("codelimit.languages.") and hasattr(m, "get_headers")]
-    orig = scope_utils.get_headers
-
-    def gh(tokens, expression, followed_by=None):
-        out.append((cur["lang"], expression, followed_by))
-        return orig(tokens, expression, followed_by)
-
-    for m in mods:
-        m.get_headers = gh
-    try:
-        for name, lang in sorted(Languages.by_name.items()):
-            cur["lang"] = name
-            lang.extract_headers([])
-    finally:
-        for m in mods:
-            m.get_headers = orig
-    return out
-
-
 def check_shape(ctx, matcher, scope_utils, lang, idx, expression, followed_by, shape, classes):
     toks = make_tokens(classes)
     case = {"part": "shape", "language": lang, "expression_index": idx, "classes": list(classes)}
@@ -346,37 +321,6 @@ def check_shape(ctx, matcher, scope_utils, lang, idx, expression, followed_by, s
           desc)
     if headers:
         ctx.count("cases.shape.with_header")
-
-
-def leaf_predicates(x, out=None):
-    """Leaf token predicates occurring anywhere in an expression (operators, lists, composite predicates)."""
-    from codelimit.common.gsm.operator.Operator import Operator as GsmOperator
-    from codelimit.common.gsm.predicate.Predicate import Predicate
-
-    if out is None:
-        out = []
-    if isinstance(x, (list, tuple)):
-        for i in x:
-            leaf_predicates(i, out)
-    elif isinstance(x, (GsmOperator, Predicate)):
-        subs = [v for k, v in vars(x).items() if isinstance(v, (list, tuple, GsmOperator, Predicate))]
-        if isinstance(x, Predicate) and not subs:
-            out.append(x)
-        for v in subs:
-            leaf_predicates(v, out)
-    return out
-
-
-def signature(x):
-    from codelimit.common.gsm.operator.Operator import Operator as GsmOperator
-    from codelimit.common.gsm.predicate.Predicate import Predicate
-
-    if isinstance(x, (list, tuple)):
-        return tuple(signature(i) for i in x)
-    if isinstance(x, (GsmOperator, Predicate)):
-        return (type(x).__name__,) + tuple((k, signature(v)) for k, v in sorted(vars(x).items())
-                                           if k not in ("satisfied", "depth"))
-    return repr(x)
 
 
 def shape_alphabet(shape, expression, followed_by):
